@@ -364,6 +364,14 @@ class Interp:
             return self._call_function(f, args, kwargs)
         if isinstance(f, type):
             return self._construct(f, args, kwargs)
+        if isinstance(f, enum.Enum) or (hasattr(type(f), "__mro__") and getattr(type(f), "__module__", "").startswith("wntr")):
+            it = _lookup_class_attr(type(f), "__call__")
+            if it is not None:
+                c = it[0]
+                if isinstance(c, property):
+                    return self.call(c.fget(f), args, kwargs)
+                if isinstance(c, types.FunctionType):
+                    return self._call_function(c, [f] + args, kwargs, defcls=it[1])
         # builtins, numpy ufuncs ...
         if is_symbolic(args) or is_symbolic(kwargs):
             m = self.models.find(getattr(f, "__func__", f))
@@ -394,8 +402,8 @@ class Interp:
         if isinstance(owner, (list, dict, set)) and name in (
                 "append", "extend", "insert", "setdefault", "update", "add", "get", "pop", "remove",
                 "index", "count", "discard", "items", "keys", "values", "copy", "clear"):
-            if name in ("remove", "index", "count", "discard") or (isinstance(owner, (dict, set)) and name in (
-                    "add", "get", "pop", "setdefault") and is_symbolic(args[:1])):
+            if (name in ("remove", "index", "count", "discard") or (isinstance(owner, (dict, set)) and name in (
+                    "add", "get", "pop", "setdefault") and is_symbolic(args[:1]))) and _has_sv(args[:1]):
                 raise Unsupported("container method %s with symbolic key" % name)
             return f(*args, **kwargs)
         raise Unsupported("builtin method %r with symbolic arguments" % (name,))
@@ -1506,6 +1514,15 @@ class Interp:
             finally:
                 self.call_site = None
         return self.call(f, args, kwargs)
+
+
+def _has_sv(x, depth=4):
+    """True if x contains a z3-valued scalar (whose equality is not python identity)."""
+    if isinstance(x, SV):
+        return True
+    if depth > 0 and isinstance(x, (tuple, list, set, frozenset)):
+        return any(_has_sv(y, depth - 1) for y in x)
+    return False
 
 
 class _NoOp:
